@@ -780,7 +780,7 @@ def finish_check(prop, tier, base_seed, recs, harness_errors, wall, mod, extra):
     for k, n in extra.get("known_hit", {}).items():
         known_hit[k] = known_hit.get(k, 0) + n
     # replays
-    rdir = os.path.join(VERIF, "replays")
+    rdir = os.environ.get("VERIF_REPLAY_DIR") or os.path.join(VERIF, "replays")
     exit_code = 0
     lines = []
     for v in viols:
@@ -919,7 +919,7 @@ def write_evidence(prop, tier, base_seed, recs, runs, viols, known_hit, harness_
         "wall_s": round(wall, 2),
         "violations": len(viols),
     }
-    d = os.path.join(VERIF, "evidence")
+    d = os.environ.get("VERIF_EVIDENCE_DIR") or os.path.join(VERIF, "evidence")
     os.makedirs(d, exist_ok=True)
     with open(os.path.join(d, f"{prop}.json"), "w") as fh:
         json.dump(ev, fh, indent=1, sort_keys=True)
